@@ -253,9 +253,10 @@ class Flow:
             return v.elts[i], venv
         return d.value, env
 
-    def cone(self, expr, env=None, stop=None, skip_index=False):
+    def cone(self, expr, env=None, stop=None, skip_index=False, builders=False):
         """[expr, defining expressions ...] (transitively).  `stop(e)` true: the sub-expression e is not looked into.
-        skip_index: of `a[i]` only `a` is looked into (what the value is made of, not what selected it)."""
+        skip_index: of `a[i]` only `a` is looked into (what the value is made of, not what selected it); with builders, np.c_[..] /
+        np.r_[..] (constructors written as subscripts) are looked into all the same."""
         out = []
         seen = set()
         env0 = env if env is not None else self.env(self.nodes_of(expr))
@@ -264,7 +265,7 @@ class Flow:
             yield e
             if stop is not None and stop(e):
                 return
-            if skip_index and isinstance(e, ast.Subscript):
+            if skip_index and isinstance(e, ast.Subscript) and not (builders and (key_of(e.value) or "").split(".")[-1] in ("c_", "r_", "mgrid", "ogrid", "s_")):
                 yield from walk(e.value)
                 return
             for c in ast.iter_child_nodes(e):
@@ -288,19 +289,19 @@ class Flow:
         visit(expr, env0)
         return out
 
-    def atoms(self, expr, env=None, stop=None, skip_index=False):
+    def atoms(self, expr, env=None, stop=None, skip_index=False, builders=False):
         """all syntax nodes of the cone (stop-pruned)."""
         def walk(e):
             yield e
             if stop is not None and stop(e):
                 return
-            if skip_index and isinstance(e, ast.Subscript):
+            if skip_index and isinstance(e, ast.Subscript) and not (builders and (key_of(e.value) or "").split(".")[-1] in ("c_", "r_", "mgrid", "ogrid", "s_")):
                 yield from walk(e.value)
                 return
             for c in ast.iter_child_nodes(e):
                 yield from walk(c)
 
-        for e in self.cone(expr, env, stop, skip_index):
+        for e in self.cone(expr, env, stop, skip_index, builders):
             yield from walk(e)
 
     def roots(self, expr, env=None, stop=None):
@@ -376,3 +377,66 @@ class Flow:
                         if d.id in self.env([n]).get(d.key, _E):
                             out.append(x)
         return out
+
+
+_VIEW_CALLS = {"asarray", "asanyarray", "ravel", "reshape", "squeeze", "view", "transpose", "swapaxes", "atleast_1d", "atleast_2d", "ascontiguousarray"}
+
+
+def alias_origins(fl, e, env=None, depth=0):
+    """The expressions whose object `e` may be (or be a view of): followed through locals bound to plain names / attribute reads and through
+    operations that do not copy (np.asarray, .T, slices, reshape / ravel / view ...).  A call that builds a new array, arithmetic, a
+    literal end the chain (nothing is returned for them).  Result: [(expression, env)] of names / attribute reads with no local definition
+    (parameters, self.x, globals)."""
+    if depth > 10:
+        return []
+    if isinstance(e, ast.Attribute) and e.attr == "T":
+        return alias_origins(fl, e.value, env, depth + 1)
+    if isinstance(e, ast.Subscript):
+        idx = e.slice.elts if isinstance(e.slice, ast.Tuple) else [e.slice]
+        if all(isinstance(i, ast.Slice) or (isinstance(i, ast.Constant) and i.value in (None, Ellipsis)) for i in idx):
+            return alias_origins(fl, e.value, env, depth + 1)  # basic slicing: a view
+        return []
+    if isinstance(e, ast.Call) and call_name(e) in _VIEW_CALLS:
+        f = e.func
+        inner = f.value if isinstance(f, ast.Attribute) and not (isinstance(f.value, ast.Name) and f.value.id in ("np", "numpy")) else (e.args[0] if e.args else None)
+        return alias_origins(fl, inner, env, depth + 1) if inner is not None else []
+    if isinstance(e, ast.IfExp):
+        return alias_origins(fl, e.body, env, depth + 1) + alias_origins(fl, e.orelse, env, depth + 1)
+    if isinstance(e, ast.NamedExpr):
+        return alias_origins(fl, e.value, env, depth + 1)
+    k = key_of(e)
+    if k is None:
+        return []
+    env = env if env is not None else (fl.env(fl.nodes_of(e)) if fl.nodes_of(e) else {})
+    ds, entry = fl.reaching(e, env)
+    out = [(e, env)] if entry else []
+    for d in ds:
+        if d.strong and d.value is not None:
+            if isinstance(d.stmt, (ast.For, ast.AsyncFor, ast.With, ast.AsyncWith)):
+                continue
+            val, venv = fl.value_of(d)
+            if d.index is not None and val is d.value:
+                continue
+            out += alias_origins(fl, val, venv, depth + 1)
+    return out
+
+
+def inplace_updates(fl, fn_node):
+    """(statement, target base expression, env) for every in-place update of an array: `a op= v`, `a[i] = v`, `a[i] op= v`."""
+    out = []
+    for n in fl.g.nodes:
+        st = n.ast
+        if n.kind != "stmt" or st is None or isinstance(st, list):
+            continue
+        tgs = []
+        if isinstance(st, ast.AugAssign):
+            tgs = [st.target]
+        elif isinstance(st, ast.Assign):
+            tgs = [t for t in st.targets if isinstance(t, ast.Subscript)]
+        for t in tgs:
+            b = t
+            while isinstance(b, ast.Subscript):
+                b = b.value
+            if key_of(b) is not None:
+                out.append((st, b, fl.env([n])))
+    return out
